@@ -260,6 +260,12 @@ mut("C12", "transpose-ignores-field-rank", E + "FEM/_linalg.py", "    if isinsta
 same("C12", "transpose-rank-via-T", E + "FEM/_linalg.py", "    if isinstance(mat, FeArray) and mat._ndim < 2:\n        # the (Ne, nPg) axes are not tensor axes: a scalar or vector field is its own transpose (as with .T)\n        return mat\n", "    if isinstance(mat, FeArray) and mat._ndim < 2:\n        return mat.T\n")
 mut("C13", "linear-form-vector-values-only", E + "FEM/_forms.py", "            data[:, i, 0] = np.reshape(values_e, -1)", "            data[:, i] = values_e", "R13.8")
 mut("C13", "bilinear-form-scalar-values-only", E + "FEM/_forms.py", "                data[:, i, j] = np.reshape(values_e, -1)", "                data[:, i, j] = values_e", "R13.8")
+mut("C02", "thermal-capacity-no-thickness", E + "Simulations/_thermal.py", "                K_e *= thickness\n                C_e *= thickness\n", "                K_e *= thickness\n", "R2.10")
+mut("C02", "phasefield-source-no-thickness", E + "Simulations/_phasefield.py", "                K_e *= thickness\n                F_e *= thickness\n", "                K_e *= thickness\n", "R2.10")
+mut("C02", "inelastic-force-no-thickness", E + "Simulations/_inelastic.py", "            F_e = -thickness * Operators.Linear.InternalForce(", "            F_e = -1.0 * Operators.Linear.InternalForce(", "R2.10")
+mut("C02", "weakform-mass-no-thickness", E + "Simulations/_weakforms.py", "            M_e = computeM.Integrate_e(field) * thickness", "            M_e = computeM.Integrate_e(field)", "R2.10")
+mut("C02", "elastic-thickness-twice-in-damping", E + "Simulations/_elastic.py", "            C_e = self.__coefK * K_e + self.__coefM * M_e\n", "            C_e = (self.__coefK * K_e + self.__coefM * M_e) * self.material.thickness\n", "R2.10")
+same("C02", "elastic-thickness-at-construction", E + "Simulations/_elastic.py", "            if self.dim == 2:\n                thickness = self.material.thickness\n                K_e *= thickness\n                M_e *= thickness\n", "            thickness = self.material.thickness if self.dim == 2 else 1.0\n            K_e = thickness * K_e\n            M_e = M_e * thickness\n")
 mut("C18", "op-no-geometric-tangent", E + "FEM/Operators/NonLinear.py", "    return A_lin + A_geo, residual_e", "    return A_lin, residual_e", "R18.12")
 mut("C18", "op-reorder-transposes", E + "FEM/Operators/NonLinear.py", "            reordered[i] = array[:, ri, rj]", "            reordered[i] = array[:, rj, ri]", "R18.12")
 mut("C18", "op-kv-tangent-swapped", E + "FEM/Operators/NonLinear.py", "    A_mat = material.eta * einsum(subscripts, wJ_e_pg, B_e_pg, Beta_e_pg)", "    A_mat = material.eta * einsum(subscripts, wJ_e_pg, Beta_e_pg, B_e_pg)", "R18.12")
